@@ -81,6 +81,7 @@ func verifRunOne(f func()) (fails []string, pan string, assumeFailed bool) {
 
 func TestVerifReplay(t *testing.T) {
 	verifLoad()
+	defer verifReset() // removes the temporary files of the last run
 	rp := verifSt.rp
 	f := verifHarnessTable[os.Getenv("VERIF_FUNC")]
 	if f == nil {
